@@ -1,8 +1,193 @@
 import HapVerif.Model.C10
 import HapVerif.Drv.Common
+/-! Line-protocol driver of C10: parses the world of a case line (grammar: harness/cmd/hv/c10.go),
+runs the model, compares its canonical text with the implementation's, parses the implementation's
+output and evaluates the Spec (`oracle`) on it. -/
 namespace HapVerif.C10
 open HapVerif.Drv
 
-def handle (_args : List String) (_impl : String) : Verdict := bad "C10-not-implemented"
+def lst (s : String) (sep : String) : List String := if s = "-" ∨ s = "" then [] else s.splitOn sep
+
+def split2 (s : String) (sep : String) : Option (String × String) :=
+  match s.splitOn sep with
+  | a :: b :: rest => some (a, sep.intercalate (b :: rest))
+  | _ => none
+
+def optTok (s : String) (lits : List (String × String)) : Option String :=
+  if s = "-" then none else some ((lits.lookup s).getD s)
+
+def groupLits : List (String × String) := [("e", ""), ("g", gwGroup), ("x", "example.com"), ("c", "")]
+def kindLits : List (String × String) := [("e", ""), ("G", "Gateway"), ("S", "Service")]
+def emptyLit : List (String × String) := [("e", "")]
+
+def parseTerm (s : String) : Option Term :=
+  if s.contains ':' then
+    match s.splitOn ":" with
+    | [k, op, vs] => some { key := k, op := op, vals := if vs = "" then [] else vs.splitOn "." }
+    | _ => none
+  else
+    match split2 s "=" with
+    | some (k, v) => some { key := k, op := "=", vals := [v] }
+    | none => none
+
+def parseSel (s : String) : Option (Option (List Term)) :=
+  if s = "N" then some none else (lst s "+").mapM parseTerm |>.map some
+
+def parseRKind (s : String) : Option RKind :=
+  match split2 s ":" with
+  | some (g, k) => some { group := if g = "n" then none else some ((groupLits.lookup g).getD g), kind := k }
+  | none => none
+
+def fromLits : List (String × String) := [("S", "Same"), ("A", "All"), ("L", "Selector"), ("X", "Bogus")]
+
+def parseListener (s : String) : Option Listener :=
+  match s.splitOn "~" with
+  | [name, host, proto, port, kinds, frm, sel] => do
+    let port ← port.toNat?
+    let allowed : Option Allowed ←
+      if kinds = "N" then pure none else do
+        let ks ← (lst kinds "+").mapM parseRKind
+        let nss : Option NsRule ←
+          if frm = "N" then pure none else do
+            let sel ← parseSel sel
+            pure (some { frm := fromLits.lookup frm, sel := sel })
+        pure (some { kinds := ks, nss := nss })
+    pure { name := name, host := optTok host emptyLit, proto := proto, port := port, allowed := allowed }
+  | _ => none
+
+def parseNsName (s : String) : Option (String × String) := split2 s "/"
+
+def parseGateway (s : String) : Option Gateway := do
+  let (hd, ls) ← split2 s "!"
+  let (nn, cls) ← split2 hd "@"
+  let (ns, name) ← parseNsName nn
+  let ls ← (lst ls "|").mapM parseListener
+  pure { ns := ns, name := name, cls := cls, listeners := ls }
+
+def parseParent (s : String) : Option ParentRef :=
+  match s.splitOn "~" with
+  | [g, k, ns, name, sect] =>
+    some { group := optTok g groupLits, kind := optTok k kindLits, ns := optTok ns emptyLit, name := name,
+           sect := optTok sect [] }
+  | _ => none
+
+def typeLits : List (String × String) :=
+  [("E", "Exact"), ("P", "PathPrefix"), ("R", "RegularExpression"), ("X", "Bogus")]
+
+def parseMatch (s : String) : Option HMatch :=
+  match s.splitOn "~" with
+  | [t, v, h] => some { ptype := optTok t typeLits, value := optTok v emptyLit, hdr := h }
+  | _ => none
+
+def parseBRef (s : String) : Option BRef :=
+  match s.splitOn "~" with
+  | [svc, port, wt] => do
+    let port ← if port = "-" then pure none else (port.toNat?).map some
+    let wt ← if wt = "-" then pure none else (wt.toInt?).map some
+    pure { svc := svc, port := port, weight := wt }
+  | _ => none
+
+def parseRule (s : String) : Option Rule := do
+  let (ms, rs) ← split2 s "^"
+  let ms ← (lst ms "+").mapM parseMatch
+  let rs ← (lst rs "+").mapM parseBRef
+  pure { mts := ms, refs := rs }
+
+def parseRoute (s : String) : Option Route :=
+  match s.splitOn "!" with
+  | [hd, prs, hosts, rules] => do
+    let (k, rest) ← split2 hd ":"
+    let (nn, ts) ← split2 rest "@"
+    let (ns, name) ← parseNsName nn
+    let ts ← ts.toNat?
+    let prs ← (lst prs "|").mapM parseParent
+    let rules ← (lst rules "|").mapM parseRule
+    pure { tcp := decide (k = "T"), ns := ns, name := name, ts := ts, parents := prs,
+           hostnames := (lst hosts ",").map fun h => if h = "e" then "" else h, rules := rules }
+  | _ => none
+
+def parseSvc (s : String) : Option Svc := do
+  let (nn, ps) ← split2 s "!"
+  let (ns, name) ← parseNsName nn
+  let ps ← (lst ps "|").mapM fun p => do
+    let (port, eps) ← split2 p "="
+    let port ← port.toNat?
+    pure (port, lst eps "+")
+  pure { ns := ns, name := name, ports := ps }
+
+def parseLabels (s : String) : Option (List (String × String)) := (lst s "+").mapM fun kv => split2 kv "="
+
+def parseWorld (cls nss gws routes svcs : String) : Option World := do
+  let cls ← (lst cls ",").mapM fun c => do
+    let (n, o) ← split2 c ":"
+    pure (n, decide (o = "o"))
+  let nss ← (lst nss ",").mapM fun c => do
+    let (n, ls) ← split2 c ":"
+    let ls ← parseLabels ls
+    pure (n, ls)
+  let gws ← (lst gws ";").mapM parseGateway
+  let routes ← (lst routes ";").mapM parseRoute
+  let svcs ← (lst svcs ";").mapM parseSvc
+  pure { classes := cls, nss := nss, gws := gws, routes := routes, svcs := svcs }
+
+/-! ### implementation output -/
+
+/-- `head{body}` -/
+def splitBrace (s : String) : Option (String × String) := do
+  let (hd, rest) ← split2 s "{"
+  if rest.endsWith "}" then pure (hd, (rest.dropEnd 1).toString) else none
+
+def parseObsPath (host : String) (s : String) : Option (String × Link × String) := do
+  let (lk, bid) ← split2 s ">"
+  match lk.splitOn "~" with
+  | [p, m, h] => pure (host, { path := p, mtype := m, hdr := h }, bid)
+  | _ => none
+
+def parseObsHost (s : String) : Option (List (String × Link × String)) := do
+  let (host, body) ← splitBrace s
+  (lst body ",").mapM (parseObsPath host)
+
+def parseObsServer (s : String) : Option Server := do
+  let (name, rest) ← split2 s "="
+  let (target, wt) ← split2 rest "*"
+  let wt ← wt.toInt?
+  pure { name := name, target := target, weight := wt }
+
+def parseObsBackend (s : String) : Option Backend := do
+  let (hd, body) ← splitBrace s
+  let (id, tcp) ← split2 hd "~"
+  let ss ← (lst body ",").mapM parseObsServer
+  pure { id := id, tcp := decide (tcp = "1"), servers := ss }
+
+def parseObsTcp (s : String) : Option (Nat × String) := do
+  let (p, bid) ← split2 s ">"
+  let p ← p.toNat?
+  pure (p, bid)
+
+def parseObs (s : String) : Option Obs :=
+  match s.splitOn "#" with
+  | [hs, bs, ts] => do
+    let hs ← (lst hs ";").mapM parseObsHost
+    let bs ← (lst bs ";").mapM parseObsBackend
+    let ts ← (lst ts ";").mapM parseObsTcp
+    pure { paths := hs.flatten, backends := bs, tcps := ts }
+  | _ => none
+
+/-- `w <ver> <classes> <nss> <gws> <routes> <svcs>` -/
+def handle (args : List String) (impl : String) : Verdict :=
+  match args with
+  | ["w", _ver, cls, nss, gws, routes, svcs] =>
+    match parseWorld cls nss gws routes svcs with
+    | none => bad "C10-world"
+    | some w =>
+      let st := sync w
+      let m := render st
+      if impl.startsWith "PANIC" then { model := m, agree := false, oracle := some "panic" } else
+      match parseObs impl with
+      | none => { model := m, agree := false, oracle := some "unparsable-output" }
+      | some o =>
+        { model := m, agree := m = impl, oracle := oracle w o,
+          trivial := st.backends.isEmpty }
+  | _ => bad "C10"
 
 end HapVerif.C10
